@@ -200,6 +200,12 @@ pub fn gen_case(p: &Params, i: u64) -> (StreamCase, u32, u8) {
     if p.thorough {
         o.msg.huge_per_mille = 20;
     }
+    if p.has("tiny") {
+        // interpreter shards: small streams only
+        o.msg.huge_per_mille = 0;
+        o.max_msgs = 6;
+        o.huge_garbage = false;
+    }
     let c = gen_stream(&mut rng, serial, &o);
     let n = c.msgs.len() as u32;
     let start = match rng.below(6) {
